@@ -91,6 +91,8 @@ Definition set_partial_window (x y w h : N) : M unit :=
 
 Definition init : M unit :=
   reset 20000 2000 ;;
+  modify (set_on false) ;;
+  modify (set_refresh 0) ;;
   cmd_with_data 0x00 [0x6F] ;;
   cmd_with_data 0x01 [0x03; 0x00; 0x2b; 0x2b] ;;
   cmd_with_data 0x06 [0x3F] ;;
